@@ -195,7 +195,13 @@ EXPLANATION = (
     "reaches it, arguments substituted for parameters - or lies under a KeyError handler (here or around every such call). "
     "A `with` block of a context manager written in the library counts as the try statement it stands for: a @contextmanager generator "
     "whose single yield sits in `try: yield / except E:`, or an object whose __exit__ returns a true value (or raises another exception) on "
-    "every path on which the passing exception is an instance of E (decided on the CFG of __exit__), handles E around the block."
+    "every path on which the passing exception is an instance of E (decided on the CFG of __exit__), handles E around the block. "
+    "A `match` statement the load-time normaliser left alone (tuple subject of non-trivial expressions, guarded captures) is analysed as the "
+    "if/elif chain Python executes for it, on a private copy of the function: subject elements bound once, in order; `case True` / `case False` "
+    "on a bool-valued element (comparison, not, and/or of such, bool(), isinstance()) are the truth test and its negation; `B is True` / "
+    "`B == False` on such values likewise; a conjunct of an elif test that an earlier failed test of the chain already decided is dropped. "
+    "A bound method kept in a local that is bound once (`register = self.register_anonymous_task`) denotes the method; a view of the buffer "
+    "taken on the spot (`memoryview(data)[a:b]`) is sliced like the buffer."
 )
 
 SER = "ipv8/messaging/serialization.py"
@@ -2572,10 +2578,10 @@ def rule_dispatch(ctx: Ctx) -> None:
         for g in region:
             if g is not fi and g.name == "register_anonymous_task":
                 continue
-            regs = list(calls(g, "self.register_anonymous_task"))
+            regs = list(_rcalls(g, "self.register_anonymous_task"))
             if g is not fi:
                 # in a helper that takes the overlay as an argument: `overlay.register_anonymous_task(...)`
-                for c in calls(g, "register_anonymous_task"):
+                for c in _rcalls(g, "register_anonymous_task"):
                     if c not in regs and isinstance(c.func, ast.Attribute) and isinstance(c.func.value, ast.Name) and is_param(g, c.func.value.id):
                         ups = _in_root_terms(g, c.func.value, fi, sites)
                         if ups and all(chain(resolve(fi, u)) == "self" for u in ups):
@@ -3258,11 +3264,22 @@ def _buffer_names(fi: FuncInfo, data: str) -> set[str]:
     return out
 
 
+def _is_buffer_value(fi: FuncInfo, e: ast.AST, data: str, bufs: set[str] | None = None) -> bool:
+    """e is the buffer or a same-length, same-bytes view / copy of it: a name of _buffer_names, or the view taken on the spot
+    (`memoryview(data)[a:b]`, `bytes(view)[a:b]`): slicing it clamps exactly like slicing the buffer"""
+    e = strip_cast(e)
+    bufs = _buffer_names(fi, data) if bufs is None else bufs
+    if isinstance(e, ast.Name):
+        return e.id in bufs
+    return isinstance(e, ast.Call) and chain(e.func) in ("memoryview", "bytes", "bytearray") and len(e.args) == 1 and not e.keywords \
+        and not isinstance(e.args[0], ast.Starred) and _is_buffer_value(fi, e.args[0], data, bufs)
+
+
 def _wire_slices(repo, fi: FuncInfo, data: str, wire: set[str]):
     """(subscript, upper bound expr) for every piece taken out of the buffer whose end depends on a wire value"""
     bufs = _buffer_names(fi, data)
     for x in walk_no_nested(fi.node):
-        if isinstance(x, ast.Subscript) and isinstance(x.ctx, ast.Load) and isinstance(x.value, ast.Name) and x.value.id in bufs:
+        if isinstance(x, ast.Subscript) and isinstance(x.ctx, ast.Load) and _is_buffer_value(fi, x.value, data, bufs):
             b = _slice_bounds(repo, fi, x)
             if b is None or b[1] is None:
                 continue
@@ -3594,7 +3611,7 @@ def rule_length_honoured(ctx: Ctx) -> None:
                 for buf in _buffer_params(t, call, data):
                     t_wire_names = _wire_locals(repo, t, buf)
                     for x in walk_no_nested(t.node):
-                        if not (isinstance(x, ast.Subscript) and isinstance(x.ctx, ast.Load) and isinstance(x.value, ast.Name) and x.value.id == buf):
+                        if not (isinstance(x, ast.Subscript) and isinstance(x.ctx, ast.Load) and _is_buffer_value(t, x.value, buf)):
                             continue
                         b = _slice_bounds(repo, t, x)
                         if b is None or b[1] is None:
@@ -3619,8 +3636,7 @@ def rule_length_honoured(ctx: Ctx) -> None:
         # fails, so the same comparison with the buffer length is needed before the piece is reported as decoded
         wired = {id(x) for x, _ in _wire_slices(repo, fi, data, wire)}
         for x in walk_no_nested(fi.node):
-            if not (isinstance(x, ast.Subscript) and isinstance(x.ctx, ast.Load) and isinstance(x.value, ast.Name)
-                    and x.value.id in _buffer_names(fi, data) and id(x) not in wired):
+            if not (isinstance(x, ast.Subscript) and isinstance(x.ctx, ast.Load) and _is_buffer_value(fi, x.value, data) and id(x) not in wired):
                 continue
             b = _slice_bounds(repo, fi, x)
             if b is None or b[1] is None or not names_in(b[1]):
@@ -4103,6 +4119,26 @@ def _length_checked(ctx: Ctx, fi: FuncInfo, cfg, sl: ast.Subscript, data: str, w
     return False, "no check"
 
 
+def _rcalls(fi: FuncInfo, pattern) -> list:
+    """calls(fi, pattern) plus the calls through a local that was bound ONCE to the callee (`send = self.endpoint.send` ... `send(..)`,
+    `a, b = self.f, self.g`, `cb = partial(self.f)` without pre-bound arguments): the local denotes the same bound method"""
+    from ..match import _match_chain, rchain
+    out = list(calls(fi, pattern))
+    for c in calls(fi):
+        if any(c is o for o in out) or not isinstance(strip_cast(c.func), ast.Name):
+            continue
+        nm = strip_cast(c.func).id
+        if is_param(fi, nm):
+            continue
+        r = resolve(fi, c.func)
+        if isinstance(r, ast.Call) and (chain(r.func) or "").split(".")[-1] == "partial" and len(r.args) == 1 and not r.keywords:
+            r = resolve(fi, r.args[0])
+        if r is not None and not isinstance(r, ast.Name) and _match_chain(rchain(fi, r), pattern):
+            out.append(c)
+    out.sort(key=lambda n: (n.lineno, n.col_offset))
+    return out
+
+
 def _is_pack_error(fi: FuncInfo, exc: ast.AST | None) -> bool:
     if exc is None:
         return False
@@ -4163,7 +4199,7 @@ def rule_consume_all(ctx: Ctx) -> None:
     dec = _decisions(ctx)
     # the offset that delimits the remainder is the one threaded through unpack_serializable: normally the `offset` parameter
     # itself, possibly a local that starts as a copy of it (`pos = offset`) - identified by its role, not by its name
-    loop_calls = calls(fi, "self.unpack_serializable")
+    loop_calls = _rcalls(fi, "self.unpack_serializable")
     ctx.anchor(loop_calls, "unpack_serializable call in unpack_serializable_list")
     thr = "offset"
     names = {a.id for a in (arg(c, 2, "offset") for c in loop_calls) if isinstance(a, ast.Name)}
@@ -4866,7 +4902,383 @@ def rule_address_arity(ctx: Ctx) -> None:
     ctx.instance("address-arity", ep.where, f"{n} spreadings / unpackings of a transport-supplied socket address examined", nontrivial=False)
 
 
-def run(ctx: Ctx) -> None:
+# ------------------------------------------------------------------------------------------ residual `match` statements
+# The load-time normaliser turns `match` into the if/elif chain Python executes, but leaves a statement alone when the subject is a tuple
+# display of non-trivial expressions (`match (data[:22] == prefix, len(data) >= 23):`) or a guarded case captures a name.  The CFG gives such
+# a statement one unconditional edge per case, so every fact its patterns establish is lost and a captured name has no definition.  For the
+# duration of this check the functions that still contain a `match` are analysed on a private structural copy in which the statement is
+# replaced by the exactly equivalent if/elif chain (the shared syntax trees are never touched; FuncInfo.node is restored afterwards):
+#   * the elements of a tuple subject are evaluated once, in order, before any pattern is tried: an element that is not a plain name is
+#     bound to a fresh local first; when its value is a bool (comparison, not, and/or of such, bool(..), isinstance(..)) `case (True, _)`
+#     is the truth test of that local and `case (False, _)` its negation (`b is True` <=> `b` for a bool);
+#   * value / singleton / capture / wildcard / or / fixed-length sequence / class patterns become the comparisons they perform;
+#   * a guard is and-ed to the pattern's condition; a guarded case that captures names is only rewritten when those names occur nowhere
+#     else in the function (Python binds them even when the guard fails; nobody can observe the difference then).
+# Anything else (mapping / star patterns, a sequence pattern against a non-display subject) is left as written.
+
+def _bool_valued(e: ast.AST) -> bool:
+    e = strip_cast(e)
+    if isinstance(e, ast.Constant):
+        return isinstance(e.value, bool)
+    if isinstance(e, ast.Compare):
+        return True
+    if isinstance(e, ast.UnaryOp) and isinstance(e.op, ast.Not):
+        return True
+    if isinstance(e, ast.BoolOp):
+        return all(_bool_valued(v) for v in e.values)
+    if isinstance(e, ast.Call) and isinstance(e.func, ast.Name) and e.func.id in ("bool", "isinstance", "issubclass", "callable", "hasattr") \
+            and not e.keywords:
+        return True
+    return False
+
+
+def _is_bool_of_simple(e: ast.AST) -> bool:
+    from ..normalize import _simple_arg
+    return isinstance(e, ast.Call) and isinstance(e.func, ast.Name) and e.func.id == "bool" and len(e.args) == 1 and not e.keywords \
+        and _simple_arg(e.args[0])
+
+
+def _drop_known_conjuncts(cond, known: set, exprs: bool = False):
+    """cond with the conjuncts removed that an earlier, failed test of the same if/elif chain already established: plain locals, and -
+    with exprs, i.e. while every test evaluated in between is free of calls with effects - any side-effect-free expression spelled identically"""
+    from ..normalize import _pure
+
+    def key(e):
+        pol = True
+        while isinstance(e, ast.UnaryOp) and isinstance(e.op, ast.Not):
+            e, pol = e.operand, not pol
+        if isinstance(e, ast.Name):
+            return (e.id, pol)
+        if exprs and not isinstance(e, ast.Constant) and _pure(e):
+            return ("#" + ast.dump(e), pol)
+        return None
+    if cond is None:
+        return None
+    parts = cond.values if isinstance(cond, ast.BoolOp) and isinstance(cond.op, ast.And) else [cond]
+    kept = [p for p in parts if key(p) is None or key(p) not in known]
+    if len(kept) == len(parts):
+        res = cond
+    elif not kept:
+        res = None
+    else:
+        res = kept[0] if len(kept) == 1 else ast.BoolOp(ast.And(), kept)
+    if res is not None:
+        k = key(res)
+        if k is not None:
+            known.add((k[0], not k[1]))          # this test failed wherever a later arm is tried
+    return res
+
+
+def _negated(e: ast.expr) -> ast.expr:
+    if isinstance(e, ast.UnaryOp) and isinstance(e.op, ast.Not):
+        return clone(e.operand)
+    return ast.UnaryOp(ast.Not(), clone(e))
+
+
+def _match_pattern(pat, subj, fields, bools=frozenset()):
+    """like normalize._pattern, with a bool-valued subject expression compared against True / False standing for itself / its negation"""
+    from ..normalize import _pattern
+    is_bool = _bool_valued(subj) or (isinstance(subj, ast.Name) and subj.id in bools)
+    if _is_bool_of_simple(subj):
+        subj = subj.args[0]
+    if isinstance(pat, ast.MatchSingleton) and isinstance(pat.value, bool) and is_bool:
+        return (clone(subj) if pat.value else _negated(subj)), []
+    if isinstance(pat, ast.MatchValue) and isinstance(pat.value, ast.Constant) and isinstance(pat.value.value, bool) and is_bool:
+        return (clone(subj) if pat.value.value else _negated(subj)), []          # never produced by the parser; kept for symmetry
+    if isinstance(pat, ast.MatchAs) and pat.pattern is not None:
+        r = _match_pattern(pat.pattern, subj, fields, bools)
+        if r is None:
+            return None
+        return r[0], r[1] + ([(pat.name, clone(subj))] if pat.name else [])
+    if isinstance(pat, ast.MatchOr):
+        conds = []
+        for p in pat.patterns:
+            r = _match_pattern(p, subj, fields, bools)
+            if r is None or r[1]:
+                return None
+            if r[0] is None:
+                return None, []
+            conds.append(r[0])
+        return ast.BoolOp(ast.Or(), conds), []
+    if isinstance(pat, ast.MatchSequence) and isinstance(subj, ast.Tuple) and len(subj.elts) == len(pat.patterns) \
+            and not any(isinstance(p, ast.MatchStar) for p in pat.patterns):
+        conds, caps = [], []
+        for p, e in zip(pat.patterns, subj.elts):
+            r = _match_pattern(p, e, fields, bools)
+            if r is None:
+                return None
+            if r[0] is not None:
+                conds.append(r[0])
+            caps += r[1]
+        return (ast.BoolOp(ast.And(), conds) if len(conds) > 1 else conds[0] if conds else None), caps
+    if isinstance(pat, ast.MatchSequence):
+        return None
+    return _pattern(pat, subj, fields)
+
+
+def _pattern_names(pat) -> set[str]:
+    out = set()
+    for x in ast.walk(pat):
+        if isinstance(x, (ast.MatchAs, ast.MatchStar)) and x.name:
+            out.add(x.name)
+        elif isinstance(x, ast.MatchMapping) and x.rest:
+            out.add(x.rest)
+    return out
+
+
+def _desugar_one_match(st: ast.Match, fn_node, fields, counter: list):
+    """the statements that replace `st`, or None when it cannot be expressed exactly"""
+    from ..normalize import _simple_arg
+    pre: list = []
+    subj = st.subject
+
+    def temp(e):
+        counter[0] += 1
+        nm = f"_match_subject_{counter[0]}"
+        pre.append(ast.copy_location(ast.Assign([ast.Name(nm, ast.Store())], e), st))
+        return ast.Name(nm, ast.Load())
+
+    bools: set[str] = set()
+    if isinstance(subj, ast.Tuple) and not any(isinstance(x, ast.Starred) for x in subj.elts):
+        elts = []
+        for x in subj.elts:
+            if _simple_arg(x):
+                elts.append(x)
+            elif _is_bool_of_simple(x):
+                elts.append(x)                 # bool(name): no temporary, `case True` on it is the truth test of the name
+            else:
+                t = temp(x)
+                if _bool_valued(x):
+                    bools.add(t.id)
+                elts.append(t)
+        subj = ast.Tuple(elts, ast.Load())
+    elif not _simple_arg(subj):
+        b = _bool_valued(subj)
+        subj = temp(subj)
+        if b:
+            bools.add(subj.id)
+    arms = []
+    for c in st.cases:
+        r = _match_pattern(c.pattern, subj, fields, bools)
+        if r is None:
+            return None
+        cond, caps = r
+        if c.guard is not None and caps:
+            names = {k for k, _ in caps}
+            inside = {id(n) for part in ([c.guard] + c.body) for n in ast.walk(part)}
+            for n in ast.walk(fn_node):
+                if isinstance(n, ast.Name) and n.id in names and id(n) not in inside:
+                    return None
+                if isinstance(n, (ast.MatchAs, ast.MatchStar)) and n.name in names and not any(n is y for y in ast.walk(c.pattern)):
+                    return None
+            by = dict(caps)
+
+            class _Sub(ast.NodeTransformer):
+                def visit_Name(self, node):
+                    if node.id in by and isinstance(node.ctx, ast.Load):
+                        return ast.copy_location(clone(by[node.id]), node)
+                    return node
+            guard = _Sub().visit(clone(c.guard))
+            cond = guard if cond is None else ast.BoolOp(ast.And(), [cond, guard])
+        elif c.guard is not None:
+            cond = c.guard if cond is None else ast.BoolOp(ast.And(), [cond, c.guard])
+        body = [ast.copy_location(ast.Assign([ast.Name(k, ast.Store())], v), c.body[0]) for k, v in caps] + c.body
+        arms.append((cond, body))
+    if not arms:
+        return None
+    if not any(isinstance(n, ast.NamedExpr) for cond, _ in arms if cond is not None for n in ast.walk(cond)):
+        known: set = set()
+        simplified = []
+        from ..normalize import _pure as _pure_
+        all_pure = all(cond is None or _pure_(cond) for cond, _ in arms)
+        for cond, body in arms:
+            simplified.append((_drop_known_conjuncts(cond, known, all_pure), body))
+            if simplified[-1][0] is None:
+                break                      # an arm that always matches: later arms are never tried
+        arms = simplified
+    chain_: list = []
+    for cond, body in reversed(arms):
+        if cond is None:
+            chain_ = body
+        else:
+            chain_ = [ast.copy_location(ast.If(cond, body, chain_), st)]
+    return pre + chain_
+
+
+def _without_matches(fn_node, fields):
+    """a structural copy of the function in which every expressible `match` is replaced, or None when nothing changed"""
+    new = clone(fn_node)
+    counter = [0]
+    changed = [0]
+
+    def block(stmts):
+        out = []
+        for st in stmts:
+            for field in ("body", "orelse", "finalbody"):
+                blk = getattr(st, field, None)
+                if isinstance(blk, list) and blk and isinstance(blk[0], ast.stmt):
+                    setattr(st, field, block(blk))
+            if isinstance(st, ast.Try):
+                for h in st.handlers:
+                    h.body = block(h.body)
+            if isinstance(st, ast.Match):
+                for c in st.cases:
+                    c.body = block(c.body)
+                rep = _desugar_one_match(st, new, fields, counter)
+                if rep is not None:
+                    changed[0] += 1
+                    out.extend(rep)
+                    continue
+            out.append(st)
+        return out
+
+    new.body = block(new.body)
+    changed[0] += _canonical_bool_tests(new)
+    if not changed[0]:
+        return None
+    ast.fix_missing_locations(new)
+    return new
+
+
+def _stored_names(fn_node) -> dict:
+    """name -> number of binding occurrences in the function (parameters count as one)"""
+    n: dict = {}
+    a = fn_node.args
+    for p_ in [*a.posonlyargs, *a.args, *a.kwonlyargs, *([a.vararg] if a.vararg else []), *([a.kwarg] if a.kwarg else [])]:
+        n[p_.arg] = n.get(p_.arg, 0) + 1
+    for x in ast.walk(fn_node):
+        if isinstance(x, ast.Name) and not isinstance(x.ctx, ast.Load):
+            n[x.id] = n.get(x.id, 0) + (2 if isinstance(x.ctx, ast.Del) else 1)
+        elif isinstance(x, (ast.MatchAs, ast.MatchStar)) and x.name:
+            n[x.name] = n.get(x.name, 0) + 1
+        elif isinstance(x, ast.MatchMapping) and x.rest:
+            n[x.rest] = n.get(x.rest, 0) + 1
+        elif isinstance(x, ast.ExceptHandler) and x.name:
+            n[x.name] = n.get(x.name, 0) + 2
+        elif isinstance(x, (ast.Global, ast.Nonlocal)):
+            for nm in x.names:
+                n[nm] = n.get(nm, 0) + 2
+        elif isinstance(x, (ast.Import, ast.ImportFrom)):
+            for al in x.names:
+                nm = (al.asname or al.name).split(".")[0]
+                n[nm] = n.get(nm, 0) + 2
+    return n
+
+
+def _canonical_bool_tests(fn_node) -> int:
+    """
+    In place, on a private copy of a function without nested scopes:
+      * `B is True` / `B == True` / `B is not False` / `B != False` -> `B`, and `B is False` / `B == False` / `B is not True` / `B != True`
+        -> `not B`, where B is an expression whose value is a bool or a local bound exactly once, to such an expression (for a bool these
+        are identities);
+      * in an if/elif chain a conjunct of a later test that is a plain local (or its negation) which an earlier, failed test of the chain
+        already decided is dropped (`if ok: .. elif not ok: ..` is `if ok: .. else: ..`): evaluating tests cannot rebind a local.
+    Returns the number of rewrites.
+    """
+    from ..normalize import _pure as _pure_
+    stored = _stored_names(fn_node)
+    bool_locals: set[str] = set()
+    for x in ast.walk(fn_node):
+        if isinstance(x, ast.Assign) and len(x.targets) == 1 and isinstance(x.targets[0], ast.Name) and stored.get(x.targets[0].id) == 1 \
+                and _bool_valued(x.value):
+            bool_locals.add(x.targets[0].id)
+        elif isinstance(x, ast.AnnAssign) and x.value is not None and isinstance(x.target, ast.Name) and stored.get(x.target.id) == 1 \
+                and _bool_valued(x.value):
+            bool_locals.add(x.target.id)
+    count = [0]
+
+    def is_bool(e) -> bool:
+        return _bool_valued(e) or (isinstance(e, ast.Name) and e.id in bool_locals)
+
+    class _T(ast.NodeTransformer):
+        def visit_Compare(self, node):
+            self.generic_visit(node)
+            if len(node.ops) != 1 or not isinstance(node.ops[0], (ast.Is, ast.IsNot, ast.Eq, ast.NotEq)):
+                return node
+            l, r = node.left, node.comparators[0]
+            if isinstance(l, ast.Constant) and isinstance(l.value, bool) and not (isinstance(r, ast.Constant) and isinstance(r.value, bool)):
+                l, r = r, l
+            if not (isinstance(r, ast.Constant) and isinstance(r.value, bool)) or not is_bool(l):
+                return node
+            same = isinstance(node.ops[0], (ast.Is, ast.Eq))
+            count[0] += 1
+            return ast.copy_location(l if same == r.value else _negated(l), node)
+
+    _T().visit(fn_node)
+    local_names = set(stored)
+    for x in ast.walk(fn_node):
+        if isinstance(x, ast.If) and not (isinstance(getattr(x, "_chained", None), bool)):
+            # the head of a chain: walk down its elif arms
+            known: set = set()
+            cur = x
+            while True:
+                cur._chained = True  # type: ignore[attr-defined]
+                if any(isinstance(n_, ast.NamedExpr) for n_ in ast.walk(cur.test)):
+                    break
+                before = ast.dump(cur.test)
+                # only facts about locals of this function are kept
+                pure = _pure_(cur.test)
+                res = _drop_known_conjuncts(cur.test, known, pure)
+                for k in [k for k in known if (k[0].startswith("#") and not pure) or (not k[0].startswith("#") and k[0] not in local_names)]:
+                    known.discard(k)
+                if res is None:
+                    # the test is known to hold: the arm is the else branch of the arm before it - handled by the parent below
+                    cur._always = True  # type: ignore[attr-defined]
+                elif ast.dump(res) != before:
+                    cur.test = res
+                    count[0] += 1
+                if len(cur.orelse) == 1 and isinstance(cur.orelse[0], ast.If):
+                    cur = cur.orelse[0]
+                else:
+                    break
+    # an elif arm whose test always holds replaces the rest of the chain
+    for x in ast.walk(fn_node):
+        if isinstance(x, ast.If) and len(x.orelse) == 1 and isinstance(x.orelse[0], ast.If) and getattr(x.orelse[0], "_always", False):
+            x.orelse = x.orelse[0].body
+            count[0] += 1
+    return count[0]
+
+
+import re as _re  # noqa: E402
+_NEEDS_COPY = _re.compile(r"\bmatch\b|(\bis|\bis\s+not|==|!=)\s+(True|False)\b|\b(True|False)\s+(is|==|!=)")
+
+
+def _swap_in_match_free_bodies(repo) -> list:
+    """[(FuncInfo, original node)] of the functions now analysed on their match-free copy"""
+    from ..model import set_parents
+    from ..normalize import _named_fields
+    swapped: list = []
+    for m in repo.by_relpath.values():
+        if not _NEEDS_COPY.search(m.src):
+            continue
+        fields = None
+        for fi in list(m.all_functions):
+            node = fi.node
+            if isinstance(node, ast.Lambda):
+                continue
+            inner = list(walk_no_nested(node))
+            if not any(isinstance(n, ast.Match) or (isinstance(n, ast.Compare) and any(isinstance(k_, ast.Constant) and isinstance(k_.value, bool)
+                                                                                      for k_ in [n.left, *n.comparators])) for n in inner):
+                continue
+            if any(n is not node and isinstance(n, (ast.FunctionDef, ast.AsyncFunctionDef, ast.Lambda, ast.ClassDef)) for n in inner):
+                continue                       # nested scopes have FuncInfo objects of their own tied to the shared tree: left as written
+            if fields is None:
+                fields = _named_fields(m.tree)
+            try:
+                new = _without_matches(node, fields)
+            except Exception:  # noqa: BLE001 - the rewrite only removes reasons for false alarms: on any trouble the function is analysed as written
+                new = None
+            if new is None:
+                continue
+            set_parents(new)
+            new._parent = parent(node)  # type: ignore[attr-defined]
+            new._info = fi  # type: ignore[attr-defined]
+            swapped.append((fi, node))
+            fi.node = new
+    return swapped
+
+
+def _run_rules(ctx: Ctx) -> None:
     _REPO_BOX[0] = ctx.repo
     rule_address_arity(ctx)
     rule_listener_lists(ctx)
@@ -4882,7 +5294,17 @@ def run(ctx: Ctx) -> None:
                "covered by table-read-guarded; a callee that removes the entry between a membership test and the read (other than by a removal "
                "written in the same function) and subscripts of other dicts are not decided")
     ctx.assume("struct / slicing semantics of CPython (slices never raise)")
+    ctx.assume("comparisons between the values the receive path handles (bytes, int, str, tuple, None) yield a bool: `(a == b) is True` is `a == b`")
     ctx.assume("asyncio hands datagram_received the socket's own address tuple: (host, port) for AF_INET, (host, port, flowinfo, scope_id) for AF_INET6")
+
+
+def run(ctx: Ctx) -> None:
+    swapped = _swap_in_match_free_bodies(ctx.repo)
+    try:
+        _run_rules(ctx)
+    finally:
+        for fi, node in swapped:
+            fi.node = node
 
 
 _CR = "ipv8/messaging/anonymization/crypto.py"
@@ -5893,3 +6315,57 @@ WITNESSES += [{'name': 'round 3: tuple helper not inlinable, no try',
                     '            self.notify_listeners((UDPv6Address(*addr[:2]), datagram))\n',
              'new': '        super().__init__(port, ip, [(socket.SOL_SOCKET, socket.SO_RCVBUF, 870400),\n'
                     '                                    (socket.IPPROTO_IPV6, socket.IPV6_V6ONLY, 1)])\n'}]}]
+
+# round 6: residual `match` statements (tuple-of-booleans subject, captures) and views of the buffer taken on the spot
+_R6_ON_PACKET_OLD = ("        if self._prefix != data[:22] or len(data) < 23:\n"
+                     "            return\n"
+                     "        msg_id = data[22]\n"
+                     "        handler = self.decode_map[msg_id]\n"
+                     "        if handler is not None:\n")
+_R6_ARRAY_OLD = ("        if end > len(data):\n"
+                 "            msg = f\"Declared length {str_length} exceeds the {len(data) - offset - self.length_size} bytes left in the buffer\"\n"
+                 "            raise PackError(msg)\n"
+                 "        a = array(self.real_format_str)\n"
+                 "        a.frombytes(data[offset + self.length_size: end])\n")
+WITNESSES += [
+    {"name": "round 6: match over (prefix-ok, long-enough) ignores the prefix element", "rule": "prefix-before-dispatch", "file": "ipv8/community.py",
+     "old": _R6_ON_PACKET_OLD,
+     "new": ("        own_prefix, handlers = self._prefix, self.decode_map\n"
+             "        match (data[:22] == own_prefix, len(data) >= 23):\n"
+             "            case (_, True):\n"
+             "                msg_id = data[22]\n"
+             "            case _:\n"
+             "                return\n"
+             "        handler = handlers[msg_id]\n"
+             "        if handler is not None:\n")},
+    {"name": "round 6: match over (prefix-ok, long-enough) tests only the prefix element", "rule": "bounds-before-index", "file": "ipv8/community.py",
+     "old": _R6_ON_PACKET_OLD,
+     "new": ("        match (data[:22] == self._prefix, len(data) >= 23):\n"
+             "            case (True, _):\n"
+             "                msg_id = data[22]\n"
+             "            case _:\n"
+             "                return\n"
+             "        handler = self.decode_map[msg_id]\n"
+             "        if handler is not None:\n")},
+    {"name": "round 6 twin: match over (prefix-ok, long-enough), both required", "rule": "prefix-before-dispatch", "kind": "twin", "file": "ipv8/community.py",
+     "old": _R6_ON_PACKET_OLD,
+     "new": ("        own_prefix, handlers = self._prefix, self.decode_map\n"
+             "        match (data[:22] == own_prefix, len(data) >= 23):\n"
+             "            case (True, True):\n"
+             "                msg_id = data[22]\n"
+             "            case _:\n"
+             "                return\n"
+             "        handler = handlers[msg_id]\n"
+             "        if handler is not None:\n")},
+    {"name": "round 6: array items read through memoryview(data)[start:end] without the declared-length check", "rule": "length-honoured",
+     "file": SER, "old": _R6_ARRAY_OLD,
+     "new": ("        a = array(self.real_format_str)\n"
+             "        a.frombytes(memoryview(data)[offset + self.length_size: end])\n")},
+    {"name": "round 6 twin: array items read through memoryview(data)[start:end], check kept", "rule": "length-honoured", "kind": "twin",
+     "file": SER, "old": _R6_ARRAY_OLD,
+     "new": _R6_ARRAY_OLD.replace("a.frombytes(data[", "a.frombytes(memoryview(data)[")},
+    {"name": "round 6: coroutine handler registered through an early-bound register_anonymous_task without ignore", "rule": "handler-contained",
+     "file": "ipv8/community.py",
+     "old": "                    self.register_anonymous_task(\"on_packet\", ensure_future(aw_result), ignore=(Exception,))\n",
+     "new": "                    register = self.register_anonymous_task\n                    register(\"on_packet\", ensure_future(aw_result))\n"},
+]
